@@ -16,6 +16,7 @@
             which the braced length is a const generic parameter of the enclosing fn (all ignored by
             the model), 5 / 6 the type-level length written as an alias named `N` / `T` (ignored by the model); 3 generated program whose repeat operand is a path to a `const` item of
             the (non-Copy) element type: the operand is a ConstPath, nothing is logged for it
+            10 box_arr![x; N] inside a fn generic over N (ignored by the model);
             8 every element is `unsafe { f(i) }` for an unsafe fn f and the program denies unused_unsafe
             (ignored by the model: accepted like the native literal); 9 every element is `f(i)` for an
             unsafe fn f with NO unsafe block: rejected like the native literal whenever an element
